@@ -86,8 +86,7 @@ Record RS (L C : list Z) (s : lstate) : Prop := mkRS {
   rs_reg : forall cid, c_opened (getc s cid) = true -> zmem cid C = false ->
            alookup (c_fd (getc s cid)) (l_reg s) = Some cid;
   rs_regd : forall fd cid, alookup fd (l_reg s) = Some cid ->
-           c_fd (getc s cid) = fd /\ cid < l_next s /\
-           (c_opened (getc s cid) = true \/ c_udp (getc s cid) = true);
+           c_fd (getc s cid) = fd /\ cid < l_next s;
   rs_closing : forall cid, c_opened (getc s cid) = true -> zmem cid C = true ->
            In cid L /\ alookup (c_fd (getc s cid)) (l_reg s) = None;
   rs_L : forall cid, In cid L -> zmem cid C = true;
@@ -265,8 +264,8 @@ Proof.
   { intros x Hx. rewrite Hg in *. destruct (x =? l_next s); [congruence|reflexivity]. }
   constructor.
   - intros x Ho Hz. rewrite Hr. pose proof (Hop _ Ho) as E. rewrite E in *. auto.
-  - intros fd x Hl. rewrite Hr in Hl. destruct (rs_regd0 _ _ Hl) as [H1 [H2 H3]].
-    rewrite Hsame by lia. rewrite Hn. repeat split; auto; lia.
+  - intros fd x Hl. rewrite Hr in Hl. destruct (rs_regd0 _ _ Hl) as [H1 H2].
+    rewrite Hsame by lia. rewrite Hn. split; auto; lia.
   - intros x Ho Hz. rewrite Hr. pose proof (Hop _ Ho) as E. rewrite E in *. auto.
   - exact rs_L0.
   - intros x Hx. rewrite Hn in Hx. rewrite Hg. assert (x =? l_next s = false) by lia.
@@ -414,13 +413,13 @@ Lemma same_static_release : forall c,
   (c_udp c = true -> c_remote (c_release c) = c_remote c).
 Proof. intros c. unfold c_release. destruct (c_udp c) eqn:E; cbn; auto. repeat split; auto. discriminate. Qed.
 
-(* conn.release of a connection that is not open or whose OnClose has been announced *)
+(* conn.release *)
 Lemma RS_release : forall L L' C s cid,
-  RS L' C s -> (c_opened (getc s cid) = true -> zmem cid C = true) ->
+  RS L' C s ->
   (forall x, In x L -> In x L') -> (forall x, In x L' -> x = cid \/ In x L) ->
   RS L C (setc s cid (c_release (getc s cid))).
 Proof.
-  intros L L' C s cid H Hoc Hsub Hsup. destruct H.
+  intros L L' C s cid H Hsub Hsup. destruct H.
   destruct (same_static_release (getc s cid)) as [Hfd [Hop [Hud Hrm]]].
   set (s' := setc s cid (c_release (getc s cid))).
   assert (Hg : forall x, x <> cid -> getc s' x = getc s x) by (intros; apply getc_setc_other; auto).
@@ -430,11 +429,9 @@ Proof.
     change (tasks s') with (tasks s).
   - intros x Hx Hz. destruct (Hcase x) as [->|Hne]; [rewrite Hgc in Hx; congruence|].
     rewrite Hg in * by auto. auto.
-  - intros fd x Hl. destruct (rs_regd0 _ _ Hl) as [H1 [H2 H3]].
+  - intros fd x Hl. destruct (rs_regd0 _ _ Hl) as [H1 H2].
     destruct (Hcase x) as [->|Hne]; [|rewrite Hg by auto; auto].
-    rewrite Hgc, Hfd, Hud. repeat split; auto.
-    destruct H3 as [H3|H3]; auto. exfalso.
-    destruct (rs_closing0 _ H3 (Hoc H3)) as [_ Hnone]. rewrite H1 in Hnone. congruence.
+    rewrite Hgc, Hfd. split; auto.
   - intros x Hx Hz. destruct (Hcase x) as [->|Hne]; [rewrite Hgc in Hx; congruence|].
     rewrite Hg in * by auto. destruct (rs_closing0 _ Hx Hz) as [H1 H2]. split; auto.
     destruct (Hsup _ H1); auto. contradiction.
@@ -451,10 +448,9 @@ Qed.
 (* el.register0 of a connected datagram socket with a remote (never opened) *)
 Lemma RS_register_only : forall C s cid fd,
   RS [] C s -> alookup fd (l_reg s) = None -> c_fd (getc s cid) = fd -> cid < l_next s ->
-  c_udp (getc s cid) = true ->
   RS [] C (set_reg s (aset fd cid (l_reg s))).
 Proof.
-  intros C s cid fd H Hnone Hfd Hlt Hud. destruct H.
+  intros C s cid fd H Hnone Hfd Hlt. destruct H.
   constructor; change (getc (set_reg ?a ?b)) with (getc a); change (l_reg (set_reg ?a ?b)) with b;
     change (l_next (set_reg ?a ?b)) with (l_next a); change (tasks (set_reg ?a ?b)) with (tasks a); auto.
   - intros x Hx Hz. rewrite alookup_aset. pose proof (rs_reg0 _ Hx Hz) as Hr.
@@ -490,7 +486,7 @@ Proof.
   - intros fd' x Hl. rewrite alookup_aset in Hl. destruct (fd' =? fd) eqn:E.
     + inversion Hl; subst x. assert (fd' = fd) by lia. subst fd'.
       rewrite Hgc. cbn [c_set_opened c_fd c_opened]. auto.
-    + destruct (rs_regd0 _ _ Hl) as [H1 [H2 H3]].
+    + destruct (rs_regd0 _ _ Hl) as [H1 H2].
       destruct (Hcase x) as [->|Hne]; [lia|]. rewrite Hg by auto. auto.
   - intros x Hx Hzx. destruct (Hcase x) as [->|Hne]; [congruence|].
     rewrite Hg in * by auto. destruct (rs_closing0 _ Hx Hzx) as [[] _].
@@ -589,7 +585,7 @@ Lemma sys_wr_cases : forall cid fd src exact w k w',
   sys_wr cid fd src exact w = (k, w') ->
   exists o w1, pull (emit (obs "sys" [ASym "wr"; AInt fd]) w) = (o, w1) /\
    ((o = None /\ k = KNone /\ w' = w1) \/
-    (exists l what, o = Some l /\ k = KNone /\ w' = desync what w1) \/
+    (exists l what, o = Some l /\ k = KNone /\ w' = desync what w1 /\ sym_eqb what "fuel" = false) \/
     (exists off n rest offered, o = Some ("r", ASym "wr" :: AInt off :: AInt n :: rest) /\
        let w2 := emit (obs "wdata" [ABytes offered]) w1 in
        ((n <? 0 = true /\ is_eagain_arg rest = true /\ (exists e, k = KErr e /\ is_eagain e = true) /\ w' = w2) \/
@@ -603,12 +599,12 @@ Proof.
   destruct o as [l|]; [|inversion Hs; subst; auto].
   right. destruct l as [ln la].
   destruct (String.eqb_spec ln "r") as [->|Hne].
-  - destruct la as [|[z|b|nm] la]; try solve [inversion Hs; subst; left; eauto].
-    destruct la as [|[off|b|s2] la]; try solve [inversion Hs; subst; left; eauto].
-    destruct la as [|[n|b|s2] rest]; try solve [inversion Hs; subst; left; eauto].
-    destruct (sym_eqb nm "wr") eqn:Hnm; cbn [negb] in Hs; [|inversion Hs; subst; left; eauto].
+  - destruct la as [|[z|b|nm] la]; try solve [inversion Hs; subst; left; do 2 eexists; repeat split; reflexivity].
+    destruct la as [|[off|b|s2] la]; try solve [inversion Hs; subst; left; do 2 eexists; repeat split; reflexivity].
+    destruct la as [|[n|b|s2] rest]; try solve [inversion Hs; subst; left; do 2 eexists; repeat split; reflexivity].
+    destruct (sym_eqb nm "wr") eqn:Hnm; cbn [negb] in Hs; [|inversion Hs; subst; left; do 2 eexists; repeat split; reflexivity].
     apply String.eqb_eq in Hnm. subst nm.
-    destruct ((off <? 0) || (zlen src <? off) || (off <? n)); [inversion Hs; subst; left; eauto|].
+    destruct ((off <? 0) || (zlen src <? off) || (off <? n)); [inversion Hs; subst; left; do 2 eexists; repeat split; reflexivity|].
     right. exists off, n, rest, (if exact then src else ztake off src). split; [reflexivity|].
     cbv zeta. destruct (n <? 0) eqn:Hn.
     + destruct rest as [|[z|b|e] rest']; cbn [is_eagain_arg].
@@ -651,7 +647,7 @@ Proof.
   { eapply Inv_emit; [exact H|reflexivity|]. intros c _ Hc'. eexists. split; [reflexivity|].
     exact Hc'. }
   pose proof (Inv_pull _ (Rel_stable L x None P HP) _ _ _ H1 Hp) as HPl.
-  destruct Hc as [[-> [-> ->]]|[[l [what [-> [-> ->]]]]|[off [n [rest [offered [-> Hc]]]]]]].
+  destruct Hc as [[-> [-> ->]]|[[l [what [-> [-> [-> _]]]]]|[off [n [rest [offered [-> Hc]]]]]]].
   - exact HPl.
   - eapply Inv_desync; eauto.
   - cbv zeta in Hc.
@@ -685,7 +681,7 @@ Proof.
   intros cid fd src exact w k w' H Hs.
   destruct (sys_wr_cases _ _ _ _ _ _ _ Hs) as [o [w1 [Hp Hc]]].
   pose proof (Any_pull_gen _ _ _ _ (Any_emit _ _ H) Hp) as H1.
-  destruct Hc as [[-> [-> ->]]|[[l [what [-> [-> ->]]]]|[off [n [rest [offered [-> Hc]]]]]]]; auto.
+  destruct Hc as [[-> [-> ->]]|[[l [what [-> [-> [-> _]]]]]|[off [n [rest [offered [-> Hc]]]]]]]; auto.
   - apply Any_desync; auto.
   - cbv zeta in Hc.
     destruct Hc as [[Hn [He [_ ->]]]|[[Hn [He [_ ->]]]|[Hn [_ [b ->]]]]]; unfold ghost;
@@ -716,7 +712,7 @@ Proof.
   { intros c s l s' [Hc Hf] Ha. split; [eapply Rel_stable; eauto|exact Hf]. }
   destruct (sysret_cases _ _ _ _ Hs) as [o [w1 [Hp Hc]]].
   pose proof (Inv_pull Rel1 Hst1 _ _ _ H1 Hp) as HPl.
-  destruct Hc as [[-> [-> ->]]|[[l [what [-> [-> ->]]]]|[n [rest [-> [-> ->]]]]]].
+  destruct Hc as [[-> [-> ->]]|[[l [what [-> [-> [-> _]]]]]|[n [rest [-> [-> ->]]]]]].
   - right. split; [reflexivity|exact HPl].
   - right. split; [reflexivity|]. eapply Inv_desync; eauto.
   - left. exists n, rest. split; [reflexivity|]. eapply Inv_weaken; [exact HPl|].
